@@ -36,6 +36,11 @@ static int (*real_open)(const char*, int, ...);
 static int (*real_open64)(const char*, int, ...);
 static int (*real_openat)(int, const char*, int, ...);
 static int (*real_close)(int);
+static int (*real_rename)(const char*, const char*);
+static int (*real_renameat)(int, const char*, int, const char*);
+static int (*real_renameat2)(int, const char*, int, const char*, unsigned);
+static int (*real_link)(const char*, const char*);
+static int (*real_linkat)(int, const char*, int, const char*, int);
 
 static void shim_init(void)
 {
@@ -52,6 +57,11 @@ static void shim_init(void)
     real_open64 = dlsym(RTLD_NEXT, "open64");
     real_openat = dlsym(RTLD_NEXT, "openat");
     real_close = dlsym(RTLD_NEXT, "close");
+    real_rename = dlsym(RTLD_NEXT, "rename");
+    real_renameat = dlsym(RTLD_NEXT, "renameat");
+    real_renameat2 = dlsym(RTLD_NEXT, "renameat2");
+    real_link = dlsym(RTLD_NEXT, "link");
+    real_linkat = dlsym(RTLD_NEXT, "linkat");
     g_dir = getenv("VERIF_SHIM_DIR");
     g_dirlen = g_dir ? strlen(g_dir) : 0;
     const char* k = getenv("VERIF_SHIM_K");
@@ -114,6 +124,70 @@ int mkdir(const char* path, mode_t mode)
         return -1;
     }
     return real_mkdir(path, mode);
+}
+
+// A writer that builds each file under a temporary name and moves it into place reaches the destination through
+// rename/link: those calls are output-directed too (none is made by the current sbeppc; counted when they appear).
+int rename(const char* from, const char* to)
+{
+    shim_init();
+    if((under_dir(to) || under_dir(from)) && counted("rename", to) && g_errno)
+    {
+        logline("INJECTED %ld rename errno=%d\n", g_count, g_errno);
+        errno = g_errno;
+        return -1;
+    }
+    return real_rename(from, to);
+}
+
+int renameat(int fd1, const char* from, int fd2, const char* to)
+{
+    shim_init();
+    if((under_dir(to) || under_dir(from)) && counted("renameat", to) && g_errno)
+    {
+        logline("INJECTED %ld renameat errno=%d\n", g_count, g_errno);
+        errno = g_errno;
+        return -1;
+    }
+    return real_renameat(fd1, from, fd2, to);
+}
+
+int renameat2(int fd1, const char* from, int fd2, const char* to, unsigned flags)
+{
+    shim_init();
+    if((under_dir(to) || under_dir(from)) && counted("renameat2", to) && g_errno)
+    {
+        logline("INJECTED %ld renameat2 errno=%d\n", g_count, g_errno);
+        errno = g_errno;
+        return -1;
+    }
+    if(real_renameat2)
+        return real_renameat2(fd1, from, fd2, to, flags);
+    return real_renameat(fd1, from, fd2, to);
+}
+
+int link(const char* from, const char* to)
+{
+    shim_init();
+    if((under_dir(to) || under_dir(from)) && counted("link", to) && g_errno)
+    {
+        logline("INJECTED %ld link errno=%d\n", g_count, g_errno);
+        errno = g_errno;
+        return -1;
+    }
+    return real_link(from, to);
+}
+
+int linkat(int fd1, const char* from, int fd2, const char* to, int flags)
+{
+    shim_init();
+    if((under_dir(to) || under_dir(from)) && counted("linkat", to) && g_errno)
+    {
+        logline("INJECTED %ld linkat errno=%d\n", g_count, g_errno);
+        errno = g_errno;
+        return -1;
+    }
+    return real_linkat(fd1, from, fd2, to, flags);
 }
 
 int mkdirat(int dfd, const char* path, mode_t mode)
